@@ -7,7 +7,7 @@ from . import c04 as g
 GROUP = "g04"
 PROP_FILE = "C06.v"
 HARNESS = "c06"
-OTHER_FILES = ("C04.v", "Gaps.v")
+OTHER_FILES = ("C04.v", "Gaps.v", "Obligations.v", "AcceptProofs.v", "OracleProofs.v")
 
 
 def classify(case):
@@ -32,7 +32,7 @@ def failure_key(case):
                 return "client-proxy-authorization-forwarded:" + str(q.get("pa_tag"))
     if client_auth and not nominated:
         for m in msgs:
-            if m.get("kind") in ("request", "proxy-plain") and q.get("method") != "CONNECT":
+            if m.get("kind") in ("request", "request-tls", "proxy-plain", "tunnel-inner") and q.get("method") != "CONNECT":
                 if ((m.get("header") or {}).get("Authorization") or []) != client_auth:
                     return "client-authorization-replaced:" + str(q.get("auth_tag"))
     return "credential-misplaced:" + classify(case)
@@ -47,7 +47,7 @@ def explain(case):
 
 
 def run(ctx):
-    info, ob_failed = g.run_group_checks(ctx, PROP_FILE, OTHER_FILES)
+    info, ob_failed = g.run_group_checks(ctx, PROP_FILE, OTHER_FILES, "CredsObligations.v")
     meta, bad = g.run_harness(ctx, HARNESS, ob_failed)
 
     n_model_bad = n_prop_bad = 0
@@ -87,8 +87,9 @@ def run(ctx):
     counts = meta.get("shard_case_counts", {})
     evaluations = sum(counts.values()) if counts else 0
     coverage = {
-        "obligations": len(info["theorems"]),
-        "discharged": len(info["discharged"]),
+        "obligations": len(info["theorems"]) + info["table_obligations"],
+        "discharged": len(info["discharged"]) + info["table_obligations_discharged"],
+        "table_obligations": info["table_obligation_names"],
         "checker_cmd": "make -j16 (coq_makefile, full .vo) in coq/lib and coq/g04; coqc C06.v; coqc on %d cases shards (vm_compute)"
                        % len(meta.get("shards", [])),
         "trusted_base": common.standard_trusted_base([
@@ -116,14 +117,15 @@ def run(ctx):
         "distribution": {k: meta.get(k) for k in (
             "configs", "exchanges", "messages_received_by_hop_and_kind", "messages_carrying_authorization",
             "messages_carrying_proxy_authorization", "exchanges_by_upstream_selection", "exchanges_by_client_authorization_shape",
-            "exchanges_by_client_proxy_authorization_shape", "exchanges_by_method", "matcher_cases", "matcher_cases_table_accepted",
+            "exchanges_by_client_proxy_authorization_shape", "exchanges_by_method", "exchanges_by_scheme", "matcher_cases", "matcher_cases_table_accepted",
             "matcher_cases_with_a_match", "shard_case_counts")},
         "samples": [{"end_to_end": [explain(s)[:500] for s in (meta.get("samples") or [])]}],
     }
     ctx.finish("proof", coverage, [
         "the theorems are about the Gallina model (Creds.v); the model is tied to the code by gen/tables g04 (lookup order, default ports, "
         "shape of setBasicAuth / upstreamProxyURL / pacProxy, hop-by-hop list, dialvia header operations) and by the differential run",
-        "https targets in absolute form (the Transport's own CONNECT) are covered by MatchURL's differential run and theorem only, not end to end",
+        "https targets in absolute form are exercised end to end (TLS to the scripted origin; through an upstream proxy the Transport's own "
+        "CONNECT head and the request inside the tunnel are both recorded); what the Transport puts on its CONNECT is modelled",
         "site credentials are also attached to a CONNECT whose authority matches an entry, and that CONNECT head goes in clear to an "
         "upstream proxy: observed, outside the statement's letter, not claimed as a violation (see design.d/C06.md)",
     ])
